@@ -89,6 +89,18 @@ CHECKS = {
        "advance structure on all paths = for all short-count/EINTR sequences; equality of outputs is value-level.",
   note="trusted: POSIX semantics of short counts and EINTR; the list of raw transfer functions in sa/props/c12.py",
   technique="static analysis: who-may-call rule + loop/phi (SSA) analysis of transfer loops on LLVM IR"),
+ "C05": dict(
+  text="Static bounded-sink rule (K6) over all 26 anchored reader units: for every memcpy/memmove/memset/strcpy, read "
+       "through sqfs_file_t.read_at, compressor output and meta/stream reads (about 120 sinks) the length is derived to be "
+       "<= the destination's capacity: constants vs static object sizes; linear arithmetic offset+length <= allocation "
+       "size (with the overflow intrinsics); provenance-based bounds (dominating guards, clamps, masks, do_block "
+       "contract, memory-carried lengths, cursor loops, interprocedural parameter bounds) against capacities fixed at "
+       "the buffers' allocation sites. Plus directory-loop check on the link path, table windows from superblock fields, "
+       "superblock sanity tests dominate success, allocation-size arithmetic. Decides absence of out-of-bounds WRITES "
+       "at these sinks on all paths; does not decide out-of-bounds reads via string functions, loop termination in "
+       "general, or the codec libraries.",
+  note="trusted: three reasoned exceptions in sa/props/c05.py; 'a pointer to struct T points to sizeof(T) bytes'",
+  technique="static analysis: bounded-sink dataflow (linear forms + guard/provenance reasoning) on LLVM IR"),
 }
 
 NA_DEFAULT = "rules designed in DESIGN.md, not implemented yet (work in progress)"
